@@ -31,7 +31,11 @@ def main():
     for name in names:
         d = mutants.make_scratch(extract.REPO)
         try:
-            r = subprocess.run(["patch", "-p1", "-s", "-i", os.path.join(sd, name, "patch.diff")], cwd=d, capture_output=True, text=True)
+            # a seed made against the pinned tree whose lines the later `fix:` commit rewrote carries a re-based copy
+            pf = os.path.join(sd, name, "patch_fixed_tree.diff")
+            if not os.path.exists(pf):
+                pf = os.path.join(sd, name, "patch.diff")
+            r = subprocess.run(["patch", "-p1", "-s", "-i", pf], cwd=d, capture_output=True, text=True)
             if r.returncode != 0:
                 print(name, "patch does not apply:", r.stdout[-200:], r.stderr[-200:])
                 rc = 2
